@@ -17,7 +17,9 @@ import Chiritori.Props.C05
   * `idempotent_default` (Props/C19Idem.lean): clean (clean src) = clean src for default-strategy removals in
     well-delimited sources - the refinement chain from extents over tokens and the pruned forest to the tokens of
     the output.
-  Not proved: idempotence with unwrapped blocks, and the composition law.
+  * `compose_default` (Props/C19Idem.lean): for cfg1 <= cfg2, clean cfg2 (clean cfg1 src) and clean cfg2 src have the
+    same non-whitespace characters, again for default-strategy removals in well-delimited sources.
+  Not proved: the two laws with unwrapped blocks (the composition law is false there: D14, D16).
 -/
 namespace Chiritori.Props.C19
 open Chiritori Chiritori.Spec
